@@ -18,10 +18,18 @@ ELEMS = {
     "uint16[3]": ["uint16", "uint16", "uint16"],
 }
 VALUE_ABI = UINT_ABI + BYTES_ABI + COMPOSITE_ABI
+NT_MENU = {"ntA": ["uint64", "uint8"], "ntB": ["bool", "uint64", "bool"], "ntC": ["uint64", "string"], "ntD": ["uint16"]}
 REF_TXN_ABI = ["account", "asset", "application", "pay", "txn"]
 MAXU = {"uint64": 2**64 - 1, "uint32": 2**32 - 1, "uint16": 65535, "uint8": 255, "byte": 255, "bool": 1}
 
 FAULT_KINDS = ["native", "user", "reclimit", "abort", "peer"]
+NAMEPOOL = ["f", "g", "helper", "calc", "do_it", "check_owner", "x", "sum_", "mul_add", "get", "set_", "payout", "Z", "a_b", "fn", "transfer", "verify", "inner", "step", "q"]
+INTPOOL = [0, 1, 2, 3, 7, 10, 100, 255, 256, 1000, 65535, 65536, 2**32, 2**32 + 1, 2**63, 2**64 - 1, 123456789, 42]
+BYTEPOOL = ["", "a", "abc", "hello world", "k1", "k2", "\\x00", "x" * 20, "key", "value", "//", "a;b", "A" * 33]
+HEXPOOL = ["0x00", "0x61", "0xdeadbeef", "0x" + "ab" * 32, "0x0001"]
+B64POOL = ["YQ==", "aGVsbG8=", "AAAA"]
+ADDRPOOL = ["AAAAAAAAAAAAAAAAAAAAAAAAAAAAAAAAAAAAAAAAAAAAAAAAAAAAY5HFKQ", "7ZUECA7HFLZTXENRV24SHLU4AVPUTMTTDUFUBNBD64C73F3UHRTHAIOF6Q"]
+MSELPOOL = ["add(uint64,uint64)uint64", "f()void", "transfer(address,uint64)bool"]
 
 
 def sub_rng(seed: int, label: str) -> random.Random:
@@ -53,10 +61,36 @@ class RecipeGen:
         self.r = rng
         self.f = features
         self.subs: list[dict] = []
-        self.tmpl_names = ["TMPL_A", "TMPL_AB", "TMPL_B", "TMPL_X"]
+        allt = ["TMPL_A", "TMPL_AB", "TMPL_B", "TMPL_X", "TMPL_FEE", "TMPL_AMT", "TMPL_OWNER", "TMPL_RCV", "TMPL_Q1", "TMPL_Z"]
+        self.tmpl_int = rng.sample(allt, rng.randrange(1, 4))
+        self.tmpl_bytes = rng.sample(allt, rng.randrange(1, 4))
         self.cur_sub_index = None
         self.minv = 2
         self.used_slots: list[int] = []
+        # user-defined abi.NamedTuple classes of this program (created per program by the builder)
+        self.ntypes: dict = {}
+        if features.get("named_tuples"):
+            for nm in rng.sample(sorted(NT_MENU), rng.randrange(1, 3)):
+                self.ntypes[nm] = NT_MENU[nm]
+        self.ELEMS = dict(ELEMS)
+        self.ELEMS.update(self.ntypes)
+        self.COMPOSITE = COMPOSITE_ABI + sorted(self.ntypes)
+        self.TUPLES = ["(uint64,uint8)", "(bool,uint64,bool)"] + sorted(self.ntypes)
+        self.VALUE = UINT_ABI + BYTES_ABI + self.COMPOSITE
+        # module-level ScratchVars of the program, visible to the main routine and every subroutine
+        self.gvars: list = []
+        if features.get("globals"):
+            for _ in range(rng.randrange(1, 4)):
+                t = rng.choice(["u", "u", "b"])
+                sid = None
+                if rng.random() < 0.4:
+                    cand = [i for i in (0, 1, 5, 9, 10, 50, 128, 200, 255) if i not in self.used_slots]
+                    sid = rng.choice(cand)
+                    self.used_slots.append(sid)
+                self.gvars.append([t, sid])
+        # a small per-program pool, so that constants repeat (frequency ties in constant blocks)
+        self.int_pool = [rng.choice(INTPOOL) for _ in range(rng.randrange(2, 7))]
+        self.byte_pool = [rng.choice(BYTEPOOL) for _ in range(rng.randrange(2, 6))]
 
     # ---------------------------------------------------------------- helpers
     def need(self, v):
@@ -84,6 +118,8 @@ class RecipeGen:
                     ok = bool(s.get("mutual_prev"))
                 else:
                     ok = False
+                if s.get("group") and self.subs[i].get("group"):
+                    ok = True
             if ok and pred(s) and self.args_available(sc, s):
                 out.append(j)
         return out
@@ -123,6 +159,8 @@ class RecipeGen:
             opts = [("int", 4), ("txn", 2), ("global", 1)]
             if sc.vars_of("u"):
                 opts.append(("load", 5))
+            if [i for i, g in enumerate(self.gvars) if g[0] == "u"]:
+                opts.append(("gvload", 3))
             if sc.abis_of(UINT_ABI):
                 opts.append(("aget", 4))
             for i, pk in enumerate(sc.params):
@@ -135,7 +173,7 @@ class RecipeGen:
             if sc.output in UINT_ABI and sc.output_set and r.random() < 0.3:
                 opts.append(("oget", 1))
             if self.f["tmpl"]:
-                opts.append(("tmpl", 1))
+                opts.append(("tmpl", 4))
             if sc.abis_of(["uint64[]", "uint16[3]"]):
                 opts.append(("arrlen", 1))
             if not leaf:
@@ -149,6 +187,10 @@ class RecipeGen:
                     opts.append(("wide", 1))
             k = self.pick(opts)
             if k == "int":
+                if self.f["consts"] and r.random() < 0.15:
+                    return ["enum", r.choice(["pay", "axfer", "noop", "optin"])]
+                if self.f["consts"]:
+                    return ["int", r.choice(self.int_pool)]
                 return ["int", r.choice([0, 1, 2, 7, 255, 256, 65536, 2**32, 2**64 - 1, r.randrange(1000)])]
             if k == "txn":
                 return ["txn", r.choice(["fee", "fv", "amount"] + (["appid", "oc"] if sc.mode == "app" else []))]
@@ -156,13 +198,15 @@ class RecipeGen:
                 return ["global", r.choice(["round", "ts", "gsize"])]
             if k == "load":
                 return ["load", r.choice(sc.vars_of("u"))]
+            if k == "gvload":
+                return ["gvload", r.choice([i for i, g in enumerate(self.gvars) if g[0] == "u"])]
             if k == "aget":
                 self.need(5)
                 return ["aget", r.choice(sc.abis_of(UINT_ABI))]
             if k == "oget":
                 return ["oget"]
             if k == "tmpl":
-                return ["tmpl", "int", r.choice(self.tmpl_names)]
+                return ["tmpl", "int", r.choice(self.tmpl_int)]
             if k == "arrlen":
                 self.need(5)
                 return ["arrlen", r.choice(sc.abis_of(["uint64[]", "uint16[3]"]))]
@@ -198,6 +242,8 @@ class RecipeGen:
             opts = [("bytes", 4), ("txn", 2)]
             if sc.vars_of("b"):
                 opts.append(("load", 5))
+            if [i for i, g in enumerate(self.gvars) if g[0] == "b"]:
+                opts.append(("gvload", 3))
             if sc.abis_of(BYTES_ABI):
                 opts.append(("aget", 3))
             if sc.abis:
@@ -210,7 +256,7 @@ class RecipeGen:
             if sc.output in BYTES_ABI and sc.output_set and r.random() < 0.3:
                 opts.append(("oget", 1))
             if self.f["tmpl"]:
-                opts.append(("tmpl", 1))
+                opts.append(("tmpl", 4))
             opts.append(("argb", 1))
             if not leaf:
                 opts += [("concat", 4), ("itob", 2), ("sha", 1)]
@@ -219,11 +265,24 @@ class RecipeGen:
                     opts.append((("call", cs), 6))
             k = self.pick(opts)
             if k == "bytes":
+                if self.f["consts"]:
+                    x = r.random()
+                    if x < 0.2:
+                        return ["hex", r.choice(HEXPOOL)]
+                    if x < 0.3:
+                        return ["b64", r.choice(B64POOL)]
+                    if x < 0.4:
+                        return ["addr", r.choice(ADDRPOOL)]
+                    if x < 0.5:
+                        return ["msel", r.choice(MSELPOOL)]
+                    return ["bytes", r.choice(self.byte_pool)]
                 return ["bytes", r.choice(["", "a", "abc", "hello world", "k1", "\\x00", "x" * 20])]
             if k == "txn":
                 return ["txn", r.choice(["sender", "note"])]
             if k == "load":
                 return ["load", r.choice(sc.vars_of("b"))]
+            if k == "gvload":
+                return ["gvload", r.choice([i for i, g in enumerate(self.gvars) if g[0] == "b"])]
             if k == "aget":
                 self.need(5)
                 return ["aget", r.choice(sc.abis_of(BYTES_ABI))]
@@ -233,7 +292,7 @@ class RecipeGen:
             if k == "oget":
                 return ["oget"]
             if k == "tmpl":
-                return ["tmpl", "bytes", r.choice(self.tmpl_names)]
+                return ["tmpl", r.choice(["bytes", "bytes", "addr"]), r.choice(self.tmpl_bytes)]
             if k == "argb":
                 if sc.mode == "app":
                     return ["apparg", r.randrange(3)]
@@ -277,15 +336,32 @@ class RecipeGen:
             return ["e", self.expr(sc, "b", 1)]
         if t == "address":
             return ["e", ["txn", "sender"]]
-        if t in COMPOSITE_ABI:
+        if t in self.COMPOSITE:
             idxs = []
-            for et in ELEMS[t]:
+            for et in self.ELEMS[t]:
                 c = sc.abis_of([et])
                 if not c:
                     return None
                 idxs.append(r.choice(c))
             if t == "uint64[]":
-                idxs = idxs * r.randrange(1, 4)
+                # distinct element objects only: PyTeal rejects one value object used at two
+                # places of an array literal with a bare AssertionError (C20's business)
+                c = sc.abis_of(["uint64"])
+                idxs = r.sample(c, min(len(c), r.randrange(1, 4)))
+            elif t == "uint16[3]" and len(set(idxs)) < 3:
+                c = sc.abis_of(["uint16"])
+                if len(c) < 3:
+                    return None
+                idxs = r.sample(c, 3)
+            elif len(set(idxs)) < len(idxs):
+                # tuples: the same value object for two fields is rejected the same way
+                used: list = []
+                for et in self.ELEMS[t]:
+                    c = [i for i in sc.abis_of([et]) if i not in used]
+                    if not c:
+                        return None
+                    used.append(r.choice(c))
+                idxs = used
             return ["elems", idxs]
         return None
 
@@ -306,7 +382,7 @@ class RecipeGen:
             sc.vars.append(t)
             return s
         if x < 0.40 and self.f["abi"]:
-            t = r.choice(VALUE_ABI if sc.abis else UINT_ABI + BYTES_ABI)
+            t = r.choice(self.VALUE if sc.abis else UINT_ABI + BYTES_ABI)
             v = self.abi_value(sc, t)
             if v is not None:
                 self.need(5)
@@ -326,7 +402,11 @@ class RecipeGen:
         opts = [("pop", 3), ("assert", 2)]
         if sc.vars:
             opts.append(("store", 5))
-        if sc.abis_of(UINT_ABI + BYTES_ABI + COMPOSITE_ABI):
+            opts.append(("pub", 2))
+        if self.gvars:
+            opts.append(("gvstore", 3))
+            opts.append(("gvpub", 2))
+        if sc.abis_of(UINT_ABI + BYTES_ABI + self.COMPOSITE):
             opts.append(("aset", 4))
         if sc.mode == "app":
             opts += [("gput", 2), ("log", 1)]
@@ -351,7 +431,7 @@ class RecipeGen:
                 opts.append((("pstore", i), 3))
         if sc.output is not None:
             opts.append(("oset", 4))
-        if sc.abis_of(["(uint64,uint8)", "(bool,uint64,bool)"]):
+        if sc.abis_of(self.TUPLES):
             opts.append(("tupget", 2))
         if sc.abis_of(["uint64[]", "uint16[3]"]):
             opts.append(("arrget", 2))
@@ -372,8 +452,18 @@ class RecipeGen:
                 return ["pop", ["int", 1]]
             i = r.choice(cands)
             return ["store", i, self.expr(sc, sc.vars[i], d)]
+        if k == "pub":
+            # store immediately followed by a load of the same variable (optimiser's pattern)
+            cands = [i for i in range(len(sc.vars)) if i not in sc.for_vars]
+            if not cands:
+                return ["pop", ["int", 1]]
+            i = r.choice(cands)
+            return ["pub", i, self.expr(sc, sc.vars[i], d)]
+        if k in ("gvstore", "gvpub"):
+            i = r.randrange(len(self.gvars))
+            return [k, i, self.expr(sc, self.gvars[i][0], d)]
         if k == "aset":
-            i = r.choice(sc.abis_of(UINT_ABI + BYTES_ABI + COMPOSITE_ABI))
+            i = r.choice(sc.abis_of(UINT_ABI + BYTES_ABI + self.COMPOSITE))
             v = self.abi_value(sc, sc.abis[i])
             if v is None or (v[0] == "copy" and v[1] == i):
                 return ["pop", ["int", 2]]
@@ -422,8 +512,8 @@ class RecipeGen:
                 sc.output_set = True
             return ["oset", sc.output, v]
         if k == "tupget":
-            i = r.choice(sc.abis_of(["(uint64,uint8)", "(bool,uint64,bool)"]))
-            es = ELEMS[sc.abis[i]]
+            i = r.choice(sc.abis_of(self.TUPLES))
+            es = self.ELEMS[sc.abis[i]]
             j = r.randrange(len(es))
             dest = sc.abis_of([es[j]])
             if not dest:
@@ -431,7 +521,7 @@ class RecipeGen:
             return ["tupget", i, j, r.choice(dest)]
         if k == "arrget":
             i = r.choice(sc.abis_of(["uint64[]", "uint16[3]"]))
-            et = ELEMS[sc.abis[i]][0]
+            et = self.ELEMS[sc.abis[i]][0]
             dest = sc.abis_of([et])
             if not dest:
                 return ["pop", ["int", 6]]
@@ -488,7 +578,7 @@ class RecipeGen:
                     if self.f["ref_txn_args"] and r.random() < 0.15:
                         params.append(["abi", r.choice(REF_TXN_ABI)])
                     else:
-                        params.append(["abi", r.choice(VALUE_ABI)])
+                        params.append(["abi", r.choice(self.VALUE)])
                 # ARC-4: transaction args must... (any position is allowed by PyTeal)
                 ret = r.choice(["void", "uint64", "string", "bool", "(uint64,uint8)", "uint64[]", "uint8"])
             else:
@@ -498,7 +588,7 @@ class RecipeGen:
                 for _ in range(nparams):
                     x = r.random()
                     if deco == "abi" and x < 0.6 or (self.f["abi"] and x < 0.2):
-                        params.append(["abi", r.choice(VALUE_ABI)])
+                        params.append(["abi", r.choice(self.VALUE)])
                     elif x < 0.75 or not self.f["byref"]:
                         params.append(["expr", r.choice(["u", "u", "b"])])
                     else:
@@ -508,7 +598,8 @@ class RecipeGen:
                     ret = r.choice(["u", "u", "b", "n"])
                 else:
                     ret = r.choice(["void", "uint64", "uint64", "string", "bool", "(uint64,uint8)", "uint8"])
-            s = {"name": f"f{k}", "deco": deco, "ret": ret, "params": params, "body": [], "retexpr": None}
+            nm = (r.choice(NAMEPOOL) + str(k)) if self.f["names"] else f"f{k}"
+            s = {"name": nm, "deco": deco, "ret": ret, "params": params, "body": [], "retexpr": None}
             if not is_method and self.f["recursion"] and not any(p[0] == "ref" for p in params) and r.random() < 0.3:
                 if deco == "sub" or self.f["abi_recursion"]:
                     s["recursive"] = True
@@ -523,6 +614,21 @@ class RecipeGen:
                 and not any(p[0] == "ref" for p in a["params"] + b["params"])
             ):
                 b["mutual_prev"] = True  # sub k-1 may call sub k (and k may call k-1 as usual)
+        # a group of plain subroutines that may call each other in any direction (cyclic call
+        # graphs richer than self/mutual recursion: cycles with chords, helpers calling back)
+        self.group_edges = []
+        if self.f["recursion"] and r.random() < 0.35:
+            cand = [k for k in range(n) if k < n - router_methods and sigs[k]["deco"] == "sub" and not any(p[0] == "ref" for p in sigs[k]["params"])]
+            if len(cand) >= 2:
+                g = sorted(r.sample(cand, r.randrange(2, min(4, len(cand)) + 1)))
+                for k in g:
+                    sigs[k]["group"] = 1
+                for i, k in enumerate(g):
+                    self.group_edges.append((k, g[(i + 1) % len(g)]))  # ring
+                for _ in range(r.randrange(0, 3)):
+                    a, b2 = r.choice(g), r.choice(g)
+                    if (a, b2) not in self.group_edges:
+                        self.group_edges.append((a, b2))  # chord / back edge / self loop
         return sigs
 
     def gen_sub_body(self, k: int, mode: str, forced=()):
@@ -532,7 +638,7 @@ class RecipeGen:
         out_t = s["ret"] if s["deco"] == "abi" and s["ret"] != "void" else None
         sc = Scope(mode, in_sub=s["name"], params=s["params"], output=out_t)
         body = []
-        for j in forced:
+        for j in list(forced) + [b for a, b in getattr(self, "group_edges", []) if a == k]:
             self.force_call(sc, j, body, False)
         n = r.randrange(1, self.f["max_body"] + 1)
         fault = s.get("fault")
@@ -546,9 +652,9 @@ class RecipeGen:
         if out_t is not None:
             v = self.abi_value(sc, out_t)
             if v is None:
-                # make the elements first
-                for et in ELEMS[out_t]:
-                    if not sc.abis_of([et]):
+                # make the elements first (one distinct value object per field)
+                for et in self.ELEMS[out_t]:
+                    while len(sc.abis_of([et])) < self.ELEMS[out_t].count(et):
                         body.append(["newabi", et, self.abi_value(sc, et)])
                         sc.abis.append(et)
                 v = self.abi_value(sc, out_t)
@@ -587,9 +693,9 @@ class RecipeGen:
             self._make_abi(sc, s["ret"], steps_or_body, as_steps)
 
     def _make_abi(self, sc, t, out, as_steps):
-        if t in COMPOSITE_ABI:
-            for et in ELEMS[t]:
-                if not sc.abis_of([et]):
+        if t in self.COMPOSITE:
+            for et in self.ELEMS[t]:
+                while len(sc.abis_of([et])) < self.ELEMS[t].count(et):
                     self._make_abi(sc, et, out, as_steps)
         v = self.abi_value(sc, t)
         st = ["newabi", t, v]
@@ -627,7 +733,7 @@ class RecipeGen:
         for k in range(nsubs):
             self.gen_sub_body(k, mode, forced[k])
         sc = Scope(mode)
-        steps = [["defsub", k] for k in range(nsubs)]
+        steps = [["defsub", k] for k in range(nsubs)] + self.global_steps()
         n = r.randrange(1, self.f["max_main"] + 1)
         pre = r.randrange(0, n + 1)
         for i in range(n):
@@ -644,8 +750,16 @@ class RecipeGen:
         steps.append(["final", self.expr(sc, "u", 1)])
         if nsubs:
             self.need(4)
-        spec = {"id": pid, "kind": "expr", "mode": mode, "target": target, "subs": self.subs, "steps": steps, "minv": self.minv}
+        spec = {"id": pid, "kind": "expr", "mode": mode, "target": target, "subs": self.subs, "steps": steps, "minv": self.minv, "ntypes": self.ntypes, "globals": self.gvars}
         return spec
+
+    def global_steps(self):
+        if not self.gvars:
+            return []
+        out = [["defglobals"]]
+        for i, g in enumerate(self.gvars):
+            out.append(["stmt", ["gvstore", i, ["int", i] if g[0] == "u" else ["bytes", "g"]]])
+        return out
 
     def _collect_calls(self, node, acc: set):
         if isinstance(node, list):
@@ -674,11 +788,13 @@ class RecipeGen:
         r = self.r
         mode = "app"
         self.need(6)
+        self.gvars = []
+        fault_on_handler = fault_sub is not None and r.random() < 0.4
         nhelp = r.choice([0, 1, 1, 2])
         nmeth = r.choice([1, 1, 2, 2, 3, 4])
         nbare = r.choice([0, 1, 1, 2])
         self.subs = self.gen_sub_signatures(nhelp + nmeth, router_methods=nmeth)
-        if fault_sub is not None:
+        if fault_sub is not None and not fault_on_handler:
             self.subs[r.randrange(len(self.subs))]["fault"] = fault_sub
         # every helper gets one guaranteed caller: a later helper or a method
         forced: list[list[int]] = [[] for _ in range(nhelp + nmeth)]
@@ -708,6 +824,9 @@ class RecipeGen:
                     "retexpr": None,
                     "handler_only": True,
                 }
+                if fault_on_handler:
+                    hs["fault"] = fault_sub
+                    fault_on_handler = False
                 handler_subs.append(hs)
                 bare[oc] = [[kind, idx], cc]
         base = len(self.subs)
@@ -718,13 +837,22 @@ class RecipeGen:
         if r.random() < 0.4:
             sc = Scope(mode)
             clear = ["expr", [self.stmt(sc, self.f["max_nest"])]]
-        steps = [["defsub", k] for k in range(len(self.subs))]
+        # helpers and bare-call handlers exist before the router; a method's subroutine is
+        # defined either up front or only just before it is registered (i.e. possibly after an
+        # earlier compile of the same router)
+        late = [k for k in range(nhelp, nhelp + nmeth) if r.random() < 0.5]
+        steps = [["defsub", k] for k in range(len(self.subs)) if k not in late]
         steps.append(["router_new", {"name": pid, "bare": bare, "clear": clear}])
+        first_compilable = None
         for k in range(nhelp, nhelp + nmeth):
             mc = {"no_op": "CALL"}
             if r.random() < 0.3:
                 mc = {r.choice(["no_op", "opt_in", "close_out"]): r.choice(["CALL", "CREATE", "ALL"])}
+            if k in late:
+                steps.append(["defsub", k])
             steps.append(["add_method", k, {"mc": mc}])
+            if first_compilable is None:
+                first_compilable = len(steps)
         spec = {
             "id": pid,
             "kind": "router",
@@ -733,7 +861,9 @@ class RecipeGen:
             "subs": self.subs,
             "steps": steps,
             "minv": max(self.minv, 6),
-            "first_compilable": len(self.subs) + 1,
+            "first_compilable": first_compilable,
+            "ntypes": self.ntypes,
+            "globals": [],
         }
         return spec
 
@@ -758,6 +888,10 @@ def gen_features(r: random.Random) -> dict:
         "reserved_slots": r.random() < 0.4,
         "many_args": r.random() < 0.15,
         "ref_txn_args": r.random() < 0.4,
+        "named_tuples": r.random() < 0.35,
+        "globals": r.random() < 0.35,
+        "consts": r.random() < 0.5,
+        "names": r.random() < 0.5,
         "max_depth": r.choice([1, 2, 2, 3]),
         "max_nest": r.choice([0, 1, 1, 2]),
         "max_body": r.choice([2, 3, 4, 6]),
@@ -789,12 +923,14 @@ def gen_opts(r: random.Random, spec: dict, *, native_fail=False, allow_sm=False)
         fp = r.choice([None, None, True, False]) if v >= 8 else r.choice([None, False])
         ss = r.choice([None, True, False])
         o["opt"] = {"fp": fp, "ss": ss}
-        if r.random() < 0.3:
-            o["opt"]["shared"] = True
+        if r.random() < 0.35:
+            o["opt"]["shared"] = r.choice([True, True, "S"])
     if v >= 3 and r.random() < 0.25:
         o["ac"] = True
     if r.random() < 0.15:
         o["via_compile"] = True
+    elif r.random() < 0.12 and spec["kind"] != "router":
+        o["reuse_comp"] = True
     if allow_sm:
         o["sm"] = {"annotate": r.random() < 0.3, "pcs": r.random() < 0.4, "concise": r.random() < 0.5}
     return o
@@ -874,14 +1010,16 @@ def gen_plan(seed: int, cfg: dict) -> dict:
                 for i in range(nsteps):
                     pops.append({"op": "build", "p": pid})
             # probes of Subroutine wrappers (type_of / has_return): any time after all defsubs
-            ndef = sum(1 for st in spec["steps"] if st[0] == "defsub")
+            ndef = 0  # length of the prefix of definition steps (subroutines, module-level variables)
+            while ndef < len(spec["steps"]) and spec["steps"][ndef][0] in ("defsub", "defglobals"):
+                ndef += 1
             subs_probe = [k for k, sb in enumerate(spec["subs"]) if sb["deco"] == "sub"]
-            if subs_probe and r.random() < 0.35:
-                nb = sum(1 for o in pops if o["op"] == "build")
+            faulty = [k for k in subs_probe if spec["subs"][k].get("fault")]
+            if subs_probe and r.random() < (0.8 if faulty else 0.35):
                 for _ in range(r.randrange(1, 3)):
                     pos_candidates = [i for i in range(len(pops) + 1) if sum(1 for o in pops[:i] if o["op"] == "build") >= ndef]
                     pos = r.choice(pos_candidates)
-                    pops.insert(pos, {"op": "probe", "p": pid, "k": r.choice(subs_probe), "what": r.choice(["type_of", "has_return"])})
+                    pops.insert(pos, {"op": "probe", "p": pid, "k": r.choice(faulty if faulty and r.random() < 0.7 else subs_probe), "what": r.choice(["type_of", "has_return"])})
             ncomp = r.choice([1, 1, 2, 3])
             for _ in range(ncomp):
                 pops.append(_compile_op(r, spec, enabled, sm_run))
@@ -889,6 +1027,11 @@ def gen_plan(seed: int, cfg: dict) -> dict:
                 # same options again: the "repeat counts" axis
                 last = [o for o in pops if o["op"] == "compile"][-1]
                 pops.append({"op": "compile", "p": pid, "opts": last["opts"], "obs": bool(spec["target"])})
+            if r.random() < 0.12:
+                # hammer: the same call several times more
+                last = [o for o in pops if o["op"] == "compile"][-1]
+                for _ in range(r.randrange(2, 5)):
+                    pops.append({"op": "compile", "p": pid, "opts": last["opts"], "obs": bool(spec["target"])})
             ops += pops
             if not is_noise:
                 live_targets.append(pid)
@@ -915,11 +1058,20 @@ def gen_plan(seed: int, cfg: dict) -> dict:
         if r.random() < 0.02:
             merged.append({"op": "gc", "n": r.randrange(10, 5000)})
 
+    # churn: bulk allocation by "other code" in the process (absolute counter values, addresses)
+    if r.random() < 0.35:
+        for _ in range(r.randrange(1, 4)):
+            what = r.choice(["slots", "slots", "subs", "vars", "abi"])
+            n = r.choice([3, 17, 100, 300, 1000, 4000]) if what in ("slots", "vars") else r.choice([2, 9, 40, 120])
+            merged.insert(r.randrange(0, len(merged) + 1), {"op": "churn", "what": what, "n": n})
+
     # source-map gate phases
     if sm_run:
-        merged.insert(0, {"op": "gate", "feature": "sourcemap_enabled", "value": True})
+        # usually on from the start; sometimes switched on only after some programs were built
+        first_on = 0 if (r.random() < 0.6 or len(merged) < 4) else r.randrange(1, len(merged))
+        merged.insert(first_on, {"op": "gate", "feature": "sourcemap_enabled", "value": True})
         if r.random() < 0.3:
-            merged.insert(1, {"op": "gate", "feature": "sourcemap_debug", "value": True})
+            merged.insert(first_on + 1, {"op": "gate", "feature": "sourcemap_debug", "value": True})
         if r.random() < 0.4 and len(merged) > 4:
             pos = r.randrange(2, len(merged))
             merged.insert(pos, {"op": "gate", "feature": "sourcemap_enabled", "value": False})
